@@ -354,13 +354,20 @@ async fn run(dir: std::path::PathBuf, cfg: Cfg, rc: RunCfg, seed: u64) -> RunOut
     for c in 0..rc.clients {
         handles.push(tokio::spawn(client(s.clone(), shared.clone(), rc.clone(), c, salt, crate::rng::mix(seed, c as u64))));
     }
+    // the maintenance task is asked to stop between two calls and then awaited: aborting it in the middle of a
+    // call would cancel that call (C14's subject) and leave its detached remainder running into close()
+    let maint_stop = Arc::new(std::sync::atomic::AtomicBool::new(false));
     let maint = if rc.maintenance {
         let s2 = s.clone();
         let mseed = rng.next();
+        let stop = maint_stop.clone();
         Some(tokio::spawn(async move {
             let mut r = Rng::new(mseed);
             loop {
                 tokio::time::sleep(Duration::from_micros(r.range(200, 3000))).await;
+                if stop.load(Ordering::SeqCst) {
+                    return;
+                }
                 match r.below(6) {
                     0 => {
                         let _ = s2.try_close_active_blob().await;
@@ -421,9 +428,14 @@ async fn run(dir: std::path::PathBuf, cfg: Cfg, rc: RunCfg, seed: u64) -> RunOut
             break;
         }
     }
+    maint_stop.store(true, Ordering::SeqCst);
     if let Some(m) = maint {
-        m.abort();
-        let _ = m.await;
+        if out.deadlock || out.inconclusive.is_some() {
+            m.abort();
+            let _ = m.await;
+        } else if tokio::time::timeout(Duration::from_secs(60), m).await.is_err() {
+            out.inconclusive = Some("the maintenance task did not finish its current call within 60 s after all clients were done".into());
+        }
     }
     if out.deadlock || out.inconclusive.is_some() {
         for h in handles {
